@@ -35,7 +35,21 @@ def _bs_units():
     return units
 
 
+def _sq_units():
+    units = []
+    first = True
+    for fam in (0, 1):
+        for t in ("int", "double"):
+            defs = ["SQ_FAMILY=%d" % fam, "SQ_T=" + t]
+            if first:
+                defs.append("SQ_MAIN")
+                first = False
+            units.append(dict(src="seq.cpp", defs=defs))
+    return units
+
+
 HARNESSES = {
+    "seq": dict(units=_sq_units()),
     "any": dict(units=[dict(src="any.cpp")]),
     "variant": dict(units=[dict(src="variant.cpp")]),
     "bitset": dict(units=_bs_units()),
@@ -203,6 +217,28 @@ PROPS["C06"] = dict(
                  "only xtl's own code runs with faults enabled; the harness' temporaries are built and destroyed with faults suspended"],
 )
 
+PROPS["C11"] = dict(
+    level="exploration",
+    batches=dict(
+        quick=[dict(harness="seq", build="san", runs=200000, wall_cap=600)],
+        thorough=[dict(harness="seq", build="san", runs=1500000, wall_cap=2400),
+                  dict(harness="seq", build="plain", runs=6000000, offset=1500000, wall_cap=2400),
+                  dict(harness="seq", build="plain", runs=300, offset=7500000, valgrind=True, workers=8, wall_cap=1200)],
+    ),
+    rule=("a case is one seeded history (1-30 operations) over two containers of one kind (xoptional_vector, xoptional_array<1|4|9>, xcomplex_vector, xcomplex_array<1|4|9>; int and double) "
+          "placed in seeded dirty memory (default-initialised `C x;` and value-initialised `C()` placement), with a model vector of pairs. Actors: the container's owner (constructors called with the container's own size, "
+          "resize in three forms), an element-proxy actor writing through operator[], at, front, back, iterator, reverse iterator and operator-> in every value form, and a storage actor writing the two underlying storages directly. "
+          "After every step both storages must have size() elements and element i must read as (first[i], second[i]) through every access path, const and non-const. "
+          "Non-trivial: at least two state-changing steps. Distinct: distinct run digests."),
+    probes=["array_default_initialised_over_dirty_memory", "array_value_initialised", "resize_to_zero", "grow_from_empty", "shrink", "write_through_reverse_iterator",
+            "storage_write_observed_through_proxy", "compared_equal", "compared_unequal", "at_out_of_range"],
+    components=dict(real=["include/xtl/xoptional_sequence.hpp", "include/xtl/xcomplex_sequence.hpp", "include/xtl/xdynamic_bitset.hpp (flag storage)", "include/xtl/xoptional.hpp / xcomplex.hpp (element proxies)"],
+                    stub=["model vector of pairs", "seeded dirty memory under every container object (the only way a defaulted constructor that forgets a storage becomes deterministic)"]),
+    assumptions=["moved-from containers are unspecified and are re-created inside the same step",
+                 "proxy-to-proxy assignment and assignment of xcomplex<T,T> to an xcomplex<T&,T&> proxy do not compile and are not generated (compile-time facts outside this technique)",
+                 "allocation failure is not injected: the property does not speak about exceptions and resizing two independent vectors cannot be atomic"],
+)
+
 PENDING = "claimed in DESIGN.md section 4 but its harness is not built yet in this tree; listed here until the check exists"
 NOT_APPLICABLE = {
     "C04": "pure function of the operands of one call (presence flags and values); no history, fault position, schedule or environment to simulate (DESIGN.md 5)",
@@ -249,6 +285,12 @@ MANIFEST_TEXT = {
         design_ref="4.5",
         note="histories are sampled, fault positions inside each sampled history are enumerated; global operator new is replaced in the harness binary",
         technique="deterministic simulation with fault injection: injected throws and allocation failures at enumerated fault points, lifetime registry, reference model",
+    ),
+    "C11": dict(
+        text="seeded histories over the four parallel-storage containers (vector and array variants of xoptional_* and xcomplex_*), placed in dirty memory, driven by an owner, an element-proxy actor and a storage actor; after every step both storages must have size() elements and every element must read as the pair of its two storage slots through operator[], at, front, back, forward, const and reverse iterators and operator->, with writes landing in exactly that pair",
+        design_ref="4.7",
+        note="sampled histories; dirty-memory placement is the fault that makes forgotten initialisation deterministic; no allocation faults",
+        technique="deterministic simulation: seeded multi-actor histories against a reference model, dirty-memory placement",
     ),
     "C14": dict(
         text="hash coherence across simulated histories: std::hash of every fixed string equals the reference MurmurHash64A of its characters after every step, equal contents reached by different histories (different stale bytes), in different layouts and capacities hash equally; the byte hashes are additionally evaluated on the buffers the simulation produces at every alignment in exact-size blocks against an independent reference (that half is evaluation of a pure function on simulated states and is reported under its own counter)",
